@@ -48,14 +48,16 @@ def generate(ctx):
 # Props/C08Gen.lean: the definitions GENERATED from the current python source (Gen/C08Span.lean) equal the hand model;
 # Props/C08Ops.lean: set-theoretic meaning of the span predicates and FeatureMap + * / without_gaps
 PROPS_FILES = ["CogentModel/Props/C08.lean", "CogentModel/Props/C08FMap.lean", "CogentModel/Props/C08Ops.lean",
-               "CogentModel/Props/C08Gen.lean", "CogentModel/Props/C08Loops.lean"]
+               "CogentModel/Props/C08Gen.lean", "CogentModel/Props/C08Loops.lean", "CogentModel/Props/C08Gaps.lean"]
 LEAN_TARGETS = ["CogentModel.Props.C08", "CogentModel.Props.C08FMap", "CogentModel.Props.C08Ops", "CogentModel.Props.C08Gen",
-                "CogentModel.Props.C08Loops"]
+                "CogentModel.Props.C08Loops", "CogentModel.Props.C08Gaps"]
 DRIVER = "drv_c08"
 TRUSTED = [
     "translator/c08_span2lean.py (python ast -> Lean for the pure span algebra: _norm_index, _norm_slice, span_and_span, Span / "
-    "SpanI / _LostSpan methods, FeatureMap + * / without_gaps get_coordinates; conventions S1-S6 in its header): the output "
-    "Gen/C08Span.lean is proved equal to the hand models for all arguments (Props/C08Gen.lean, re-checked against freshly "
+    "SpanI / _LostSpan methods, FeatureMap + * / without_gaps get_coordinates; wave 2: `for` loops as structural recursion -> "
+    "coords_minus_coords, coords_intersect, FeatureMap.__post_init__/gaps/nongap/inverse/start/end/absolute_position/"
+    "relative_position; conventions S1-S10 in its header): the output "
+    "Gen/C08Span.lean is proved equal to the hand models for all arguments (Props/C08Gen.lean, Props/C08Loops.lean, re-checked against freshly "
     "generated text every run)",
     "hand-written model lean/CogentModel/Model/FMapOps.lean (span predicates, Span[int], * / reversed_relative_to, FeatureMap "
     "+ * / without_gaps get_coordinates start end get_covering_span), also tied by the `spanops` / `fmops` correspondence",
